@@ -53,7 +53,9 @@ TQuery ==
           /\ \A k \in DOMAIN Ev.res : Ev.res[k] \in 1..Ev.len
           /\ \A k \in 1..(Len(Ev.res) - 1) : Ev.res[k] < Ev.res[k + 1])
     /\ C("utilities-one-per-candidate", Ev.nutil = Ev.len)
-    /\ C("query-leaves-state-unchanged", dig = 0 \/ Ev.dig = dig)
+    \* Ev.digr: digest of the state after the call restricted to the attributes that existed before it
+    \* (an attribute created lazily with its initial value is not a change; a vanished one is)
+    /\ C("query-leaves-state-unchanged", dig = 0 \/ Ev.digr = dig)
     /\ C("repeated-query-same-result",
           (last.valid /\ last.cid = Ev.cid) => (last.res = Ev.res /\ last.udig = Ev.udig))
     /\ C("same-result-as-run-without-extra-queries",
